@@ -73,6 +73,17 @@ def resolve_fcm(entries):
     for e in entries:
         if e["dk"] in ("fcm", "fcm_dep_mu"):
             e["fcm_on"] = "own" if own else "foreign"
+    # where the harness will create each variable (see make_var / build_vars): the first variable of a name goes into the
+    # prior's model, a later one of the same name has to live in another pymc model (one model cannot hold two variables of
+    # one name) - such a variable is NOT what `prior.model[name]` is
+    taken = set()
+    for e in [x for x in entries if not x["dk"].startswith("fcm")] + [x for x in entries if x["dk"].startswith("fcm")]:
+        vn = e["name"] + "_alt" if e.get("misnamed") else e["name"]
+        if e["dk"] in REGISTERS:
+            e["registered"] = vn not in taken
+            taken.add(vn)
+        else:
+            e["registered"] = True
     return entries
 
 
@@ -292,7 +303,7 @@ def effective_env(spec):
     offsets are entered under their own names after the parameters.  -> {name: (dim|None, kind)}, aux entries"""
     env = {}
     for e in spec["pars"] + (spec["offsets"] if spec["offsets_arg"] in ("list", "tuple") else []):
-        env[e["name"]] = (None if e["unit"] is None else UNITS[e["unit"]], kof(e), not e.get("misnamed"))
+        env[e["name"]] = (None if e["unit"] is None else UNITS[e["unit"]], kof(e), not e.get("misnamed"), e.get("registered", True))
     return env
 
 
@@ -313,9 +324,9 @@ def wellformed_oracle(spec):
         env = {}
         if spec["pars"]:
             e = spec["pars"][0]
-            env[e["name"]] = (None if e["unit"] is None else UNITS[e["unit"]], kof(e), not e.get("misnamed"))
+            env[e["name"]] = (None if e["unit"] is None else UNITS[e["unit"]], kof(e), not e.get("misnamed"), e.get("registered", True))
         for e in spec["offsets"]:
-            env[e["name"]] = (None if e["unit"] is None else UNITS[e["unit"]], kof(e), not e.get("misnamed"))
+            env[e["name"]] = (None if e["unit"] is None else UNITS[e["unit"]], kof(e), not e.get("misnamed"), e.get("registered", True))
     else:
         env = effective_env(spec)
     q = len(spec["offsets"])
@@ -332,13 +343,15 @@ def wellformed_oracle(spec):
     for n in need[5:]:
         if not (env[n][1] == "normal" or (env[n][1] == "fcm" and n == "K")):
             return False, f"linear parameter {n} is not an independent Normal (FixedCompanionMass: K only)"
+        if len(env[n]) > 3 and not env[n][3]:
+            return False, f"the prior given for the linear parameter {n} is not the variable the prior's pymc model holds under that name"
     return True, None
 
 
 def model_op(spec):
     def par(e):
         return dict(name=e["name"], unit=None if e["unit"] is None else list(UNITS[e["unit"]]), kind=kof(e),
-                    named=not e.get("misnamed"))
+                    named=not e.get("misnamed"), registered=e.get("registered", True))
     try:
         poly = int(spec["poly"])
     except Exception:
@@ -666,7 +679,8 @@ def default_mutations(d, rng):
 
 def default_model_op(d):
     def par(e):
-        return dict(name=e["name"], unit=None if e["unit"] is None else list(UNITS[e["unit"]]), kind=kof(e))
+        return dict(name=e["name"], unit=None if e["unit"] is None else list(UNITS[e["unit"]]), kind=kof(e),
+                    named=not e.get("misnamed"), registered=e.get("registered", True))
     sv = d["sigma_v"]
     if sv is None or sv in ("bare", "array"):
         svj = sv
@@ -746,7 +760,7 @@ def default_oracle(d):
             return False, f"no usable sigma_v for {n}"
         env[n] = (UNITS[svd[n]], "normal")
     for e in d["user"] + d["offsets"]:
-        env[e["name"]] = (None if e["unit"] is None else UNITS[e["unit"]], kof(e), not e.get("misnamed"))
+        env[e["name"]] = (None if e["unit"] is None else UNITS[e["unit"]], kof(e), not e.get("misnamed"), e.get("registered", True))
     need = expected_names(p, len(d["offsets"]))
     for n in need:
         if n not in env:
@@ -760,6 +774,8 @@ def default_oracle(d):
     for n in need[5:]:
         if not (env[n][1] == "normal" or (env[n][1] == "fcm" and n == "K")):
             return False, f"linear parameter {n} is not an independent Normal (FixedCompanionMass: K only)"
+        if len(env[n]) > 3 and not env[n][3]:
+            return False, f"the prior given for the linear parameter {n} is not the variable the prior's pymc model holds under that name"
     return True, None
 
 
